@@ -36,14 +36,14 @@ def phase_exprs(E, name, x, y, quadratic):
     return E.choice(name, opts)
 
 
-def circuit_grad(E, layers, quadratic, kinds=None):
+def circuit_grad(E, layers, quadratic, kinds=None, nq=2):
     import sympy
     from discopy.quantum import gates as G
     from discopy.quantum.circuit import Id
     sym.begin(E)
     x, y = sym.sym(E, 'x'), sym.sym(E, 'y')
-    n = 2
-    c = G.Ket(0, 0)
+    n = nq
+    c = G.Ket(*[0] * n)
     has_ctrl = False
     has_scalar = False
     for l in range(layers):
@@ -215,11 +215,13 @@ def harnesses(tier):
     layers = 1
     more = [] if q else [
         H("circuit_grad_2", circuit_grad,
-          dict(layers=2, quadratic=False, kinds=['Rx', 'Rz', 'CRz', 'H']),
+          dict(layers=2, quadratic=False, kinds=['Rx', 'Rz', 'Ry', 'H'],
+               nq=1),
           FUNCS, covers=["pure", "mixed"], engine="SYM (z3 QF_NRA)",
-          bounds="Ket(0,0) then 2 layers from {Rx, Rz, CRz, H} with affine "
-          "phases (the same symbol may occur in both gates)", timeout_s=T,
-          solver_timeout_ms=30000)]
+          bounds="Ket(0) then 2 layers from {Rx, Rz, Ry, H} on one qubit with "
+          "affine phases (the same symbol may occur in both gates); two "
+          "parametrised layers on two qubits do not terminate in z3",
+          timeout_s=T, solver_timeout_ms=30000)]
     return more + [
         H("circuit_grad", circuit_grad, dict(layers=layers, quadratic=not q),
           FUNCS, covers=["pure", "mixed", "constant", "refused"],
